@@ -90,7 +90,8 @@ def extract(config, verbose=False):
     """Return path of the fact file for `config` on the current tree, extracting if needed."""
     c = CONFIGS[config]
     os.makedirs(os.path.join(CACHE, "facts", config), exist_ok=True)
-    lockf = open(os.path.join(CACHE, "facts", config + ".lock"), "w")
+    suffix = os.environ.get("RR_TARGET_SUFFIX", "")
+    lockf = open(os.path.join(CACHE, "facts", config + suffix + ".lock"), "w")
     fcntl.flock(lockf, fcntl.LOCK_EX)
     try:
         key = tree_key(config)
@@ -101,10 +102,13 @@ def extract(config, verbose=False):
         if c.get("harness"):
             # harness crates path-depend on /repo: they need /repo's lock file
             shutil.copyfile(os.path.join(REPO, "Cargo.lock"), os.path.join(c["dir"], "Cargo.lock"))
-        target = os.path.join(CACHE, "target-" + config)
+        target = os.path.join(CACHE, "target-" + config + suffix)
         os.makedirs(target, exist_ok=True)
         # cargo's freshness cache would skip the wrapper: drop the dumped crates' fingerprints
-        for crate in c["crates"].split(","):
+        # (cargo names artifacts by workspace-relative path and trusts mtimes, so a tree restored with old
+        # mtimes - or another checkout of the same crate - would otherwise reuse stale artifacts, in
+        # particular a stale proc-macro .so)
+        for crate in c["crates"].split(",") + ["rustradio", "rustradio_macros"]:
             for fp in glob.glob(os.path.join(target, "debug", ".fingerprint", crate + "-*")):
                 shutil.rmtree(fp, ignore_errors=True)
         tmpout = os.path.join(CACHE, "facts", config, "tmp-%d" % os.getpid())
@@ -134,7 +138,7 @@ def extract(config, verbose=False):
         shutil.rmtree(tmpout, ignore_errors=True)
         # keep the cache small: drop older fact files of this config
         olds = sorted(glob.glob(os.path.join(CACHE, "facts", config, "*.json")), key=os.path.getmtime)
-        for o in olds[:-4]:
+        for o in olds[:-12]:
             if o != out:
                 os.remove(o)
         if verbose:
